@@ -164,11 +164,58 @@ fn universe(thorough: bool) -> Vec<AKey> {
         other_val[2].1 = "zz".into();
         lists.extend([distinct, rot, rev, rep_name, rep_name_sw, rep_label, other_val]);
     }
+    // long lists (beyond every small-size special case of the sorting routines) with one label name used four times:
+    // any permutation that keeps the same-named labels in their relative order gives a key that is == (canonical order =
+    // stable sort by name) and must therefore hash alike. 16 deterministic shuffles per size, under one name only.
+    let mut long_lists: Vec<Vec<(String, String)>> = Vec::new();
+    for n in [21usize, 24, 40] {
+        let dups: Vec<(String, String)> = (0..4).map(|d| ("dup".to_string(), format!("d{}", d))).collect();
+        let others: Vec<(String, String)> = (0..n - 4).map(|i| (format!("m{:02}", i), format!("v{}", i % 3))).collect();
+        let mut seed: u64 = 0x9e37_79b9_7f4a_7c15 ^ n as u64;
+        let mut next = |m: usize| -> usize {
+            seed = seed.wrapping_mul(6364136223846793005).wrapping_add(1442695040888963407);
+            ((seed >> 33) as usize) % m
+        };
+        for variant in 0..16 {
+            // positions of the four same-named labels (ascending), everything else shuffled around them
+            let mut pos: Vec<usize> = Vec::new();
+            while pos.len() < 4 {
+                let p = next(n);
+                if !pos.contains(&p) {
+                    pos.push(p);
+                }
+            }
+            pos.sort();
+            let mut o = others.clone();
+            for i in (1..o.len()).rev() {
+                o.swap(i, next(i + 1));
+            }
+            let mut list = Vec::with_capacity(n);
+            let (mut oi, mut di) = (0, 0);
+            for i in 0..n {
+                if di < 4 && pos[di] == i {
+                    list.push(dups[di].clone());
+                    di += 1;
+                } else {
+                    list.push(o[oi].clone());
+                    oi += 1;
+                }
+            }
+            if variant == 15 {
+                // one that really differs: two of the same-named labels swapped
+                list.swap(pos[0], pos[3]);
+            }
+            long_lists.push(list);
+        }
+    }
     let mut out = Vec::new();
     for n in names {
         for l in &lists {
             out.push((n.to_string(), l.clone()));
         }
+    }
+    for l in long_lists {
+        out.push(("a".to_string(), l));
     }
     out
 }
